@@ -28,7 +28,6 @@ type numMultiG[T any] struct {
 type numTailG[T any] struct {
 	V T      `"=" @Num`
 	W string `( "," "," @Num )?`
-	X string `( "," @Num )?`
 }
 type namedI16 int16
 type namedF32 float32
